@@ -134,6 +134,23 @@ fn run<T: Flt>(src: &mut Src, obs: &mut Obs, two_d: bool) -> Result<(), Fail> {
     } else {
         Some(mk_good(src, ny))
     };
+    // x and y as two views of one allocation (same first element, same length, other stride); y valid or not
+    let mut yv = yv;
+    let mut aliased = None;
+    if let Some(x) = &xv {
+        if two_d && nx == ny && x.len() == nx && nx >= 2 && src.chance(1, 5) {
+            let ok = src.bool();
+            let y = related_axis::<T>(src, x, ok);
+            aliased = alias_axes::<T>(x, &y);
+            if aliased.is_some() {
+                obs.class("axes:aliasing-views");
+            }
+            if classify(&y) != Mono::Rising(true) {
+                why_invalid.get_or_insert("y-order(aliasing)");
+            }
+            yv = Some(y);
+        }
+    }
     let x_eff: Vec<T> = xv.clone().unwrap_or_else(|| (0..nx).map(|i| T::of(i as f64)).collect());
     let y_eff: Vec<T> = yv.clone().unwrap_or_else(|| (0..ny).map(|i| T::of(i as f64)).collect());
     // validity by the reference definitions (covers default axes of length < 2 as well)
@@ -178,7 +195,10 @@ fn run<T: Flt>(src: &mut Src, obs: &mut Obs, two_d: bool) -> Result<(), Fail> {
     }
     let built = catch(|| {
         if two_d {
-            build2_rec::<T>(xo, yo, darr, dd, min, log.clone(), inject_build.clone(), inject_at.clone()).map(|r| r.map(Built::Two))
+            match aliased {
+                Some((xa, ya)) => build2_rec_any::<T, ndarray::OwnedArcRepr<T>>(Some(xa), Some(ya), darr, dd, min, log.clone(), inject_build.clone(), inject_at.clone()).map(|r| r.map(Built::Two)),
+                None => build2_rec::<T>(xo, yo, darr, dd, min, log.clone(), inject_build.clone(), inject_at.clone()).map(|r| r.map(Built::Two)),
+            }
         } else {
             build1_rec::<T>(xo, darr, dd, min, log.clone(), inject_build.clone(), inject_at.clone()).map(|r| r.map(Built::One))
         }
